@@ -377,10 +377,15 @@ def clip_case(draw):
     kind, coords = g["type"], g["coordinates"]
     b = ref_bounds(kind, coords)
     step = g["meta"]["ts"] / 64
-    placement = draw(st.sampled_from(["around", "touch_start", "touch_end", "inside", "free", "equal"]))
+    placement = draw(st.sampled_from(["around", "touch_start", "touch_end", "inside", "free", "equal", "negative_start", "around_negative"]))
     s, e = b[0], b[2]
     k1 = draw(st.integers(0, 80))
     k2 = draw(st.integers(0, 80))
+    if placement == "negative_start":
+        # a clip that starts before time 0 (the Clip model allows it: pre-trigger padding) and a minimum overlap that reaches past the
+        # end of the geometry when measured from 0 but not when measured from the clip's real start
+        m = e + draw(st.integers(0, 3)) * step
+        return {"g": g, "clip": [-(m + (k1 + 1) * step), m + s + (k2 + 1) * step], "min": m, "placement": placement, "m_mode": "covers_end"}
     if placement == "around":
         cs, ce = max(0.0, s - k1 * step), e + k2 * step
     elif placement == "touch_start":  # geometry ends exactly at clip start
@@ -392,6 +397,8 @@ def clip_case(draw):
         cs, ce = s + min(k1, 4) * step, max(s + min(k1, 4) * step, e - min(k2, 4) * step)
     elif placement == "equal":
         cs, ce = s, e
+    elif placement == "around_negative":
+        cs, ce = -(k1 + 1) * step, e + k2 * step
     else:
         cs = draw(st.integers(0, 400)) * step
         ce = cs + k2 * step
